@@ -20,6 +20,9 @@ SPELLINGS = [b"%E0003S", b"%E00003S", b"%E00015f", b"%E01024f", b"%E01025f", b"%
              b"%E0000000001025S", b"%E4294967297S", b"%E4294967302f", b"%E18446744073709551617S", b"%E18446744073709551622f", b"%E65539S",
              b"%E0004Y", b"%E04Y", b"%E00000000000000000000000000000000000003f"]
 LIT = [b"", b" ", b"-", b":", b"T", b"abc", b"/", b".", b",", b"%%", b"%%%%", b"\xe9", b"E", b"*", b"Z", b"1", b"\t"]
+# a colon run that is not one of %:z %::z %:::z, followed by what would be a cctz extension had it stood behind a bare '%'
+COLON_E = [b"%:Ez", b"%:ET", b"%::E*S", b"%:::E3S", b"%:E*f", b"%:E4Y", b"%:E*z", b"%::Ez", b"%:::E*z", b"%a %:ET %H:%M", b"%:E0S|%S", b"%::::z", b"%:E15f",
+           b"%:Ez %Ez", b"%Y%:E4Y", b"[%:::E18S]"]
 DANGLING = [b"%", b"%E", b"%E*", b"%:", b"%::", b"%:::", b"%E4", b"%E1", b"%E12345", b"%O", b"%E%", b"%:%z", b"%E" + b"9" * 1000 + b"S",
             b"%E" + b"9" * 30, b"%%%", b"%%%%%", b"%E*%Y", b"%:Y", b"%::Y", b"%EY", b"%Ef", b"%ES", b"%E*Y", b"%E4y", b"%E1025f"]
 REPO = [b"%Y-%m-%d%ET%H:%M:%E*S%Ez", b"%Y-%m-%d%ET%H:%M:%S%Ez", b"%a, %d %b %E4Y %H:%M:%S %z", b"%d %b %E4Y %H:%M:%S %z",
@@ -29,8 +32,8 @@ REPO = [b"%Y-%m-%d%ET%H:%M:%E*S%Ez", b"%Y-%m-%d%ET%H:%M:%S%Ez", b"%a, %d %b %E4Y
 
 def formats(seed, n):
     r = random.Random(seed)
-    out = list(REPO) + INTERNAL + DELEGATED + DANGLING + NULS + WIDE + WIDTHS + ORDERS + SPELLINGS + [b"x" + t + b"|%S" for t in SPELLINGS]
-    toks = INTERNAL + DELEGATED + LIT + DANGLING + SPELLINGS[:6]
+    out = list(REPO) + INTERNAL + DELEGATED + DANGLING + COLON_E + NULS + WIDE + WIDTHS + ORDERS + SPELLINGS + [b"x" + t + b"|%S" for t in SPELLINGS]
+    toks = INTERNAL + DELEGATED + LIT + DANGLING + SPELLINGS[:6] + COLON_E[:9]
     # all pairs of (internal|delegated|dangling) with a separator class: the cut points of the scanner
     for a, b in itertools.product(INTERNAL[:24] + DELEGATED[:12] + DANGLING[:12], repeat=2):
         if r.random() < (0.25 if n < 20000 else 1.0):
